@@ -209,6 +209,9 @@ func partyHasTaxIDCode(party *org.Party) bool {
 // After inverting the invoice is recalculated and any differences will raise
 // an error.
 func (inv *Invoice) Invert() error {
+	if err := checkNullRows(inv); err != nil {
+		return err
+	}
 	if inv.Totals == nil {
 		// nothing calculated yet, or nothing priced
 		if err := inv.Calculate(); err != nil {
